@@ -300,6 +300,21 @@ func httpUpgraderRules(c *Ctx, prop string) {
 			if fold.Show(wu[0].Args[0]) != "bw" || fold.Show(wu[0].Args[1]) != "key" {
 				problems = append(problems, "the 101 response is not written to the hijacked writer with the received key: "+fold.Show(wu[0].Args[1]))
 			}
+			// what is sent is what is returned; the subprotocol is the first one the selector accepted
+			if len(wu[0].Args) >= 3 && fold.Show(wu[0].Args[2]) != fold.Show(ret[2]) {
+				problems = append(problems, "the handshake data sent ("+fold.Show(wu[0].Args[2])+") differs from the one returned ("+fold.Show(ret[2])+") "+desc)
+			}
+			if hs, ok := ret[2].(fold.Struct); ok && len(hs.F) == 2 {
+				wantProto := `""`
+				for i := 1; i <= 3 && wantProto == `""`; i++ {
+					if p.Chose(fmt.Sprintf("select#%d", i)) == 1 {
+						wantProto = fmt.Sprintf("%q", fmt.Sprintf("proto%d", i))
+					}
+				}
+				if fold.Show(hs.F[0]) != wantProto {
+					problems = append(problems, "returned subprotocol is "+fold.Show(hs.F[0])+", the first accepted one is "+wantProto+" "+desc)
+				}
+			}
 			continue
 		}
 		if len(wu) != 0 {
